@@ -195,7 +195,12 @@ def run_cell(cfg, cx):
         got_max = I.sym_call(lambda xb, yb: ml.timestep_smse_loss(mk(xb), mk(yb), steps, reduce="max"), x, y)
         totals = [sum(per_step[b], S.ZERO) for b in range(batch)]
         for b in range(batch):
-            assum = [S.lt(totals[o], totals[b]) for o in range(batch) if o != b]
+            # strict maximum; the implied non-strict comparison is stated too, so that the first-index argmax guard (<=) is
+            # met syntactically instead of through non-linear reasoning
+            assum = []
+            for o in range(batch):
+                if o != b:
+                    assum += [S.lt(totals[o], totals[b]), S.le(totals[o], totals[b]), S.bnot(S.lt(totals[b], totals[o])), S.bnot(S.le(totals[b], totals[o]))]
             cx.equal(f"timestep[max] when entry {b} is largest", got_max, per_step[b], assumptions=assum, key=f"steps:max:{b}:{ckey}",
                      replay=lambda vals, bvals, b=b: cx.deviates(
                          np.asarray(ml.timestep_smse_loss(mk({q: jnp.asarray(cx.conc(v, vals)) for q, v in x.items()}),
